@@ -6,6 +6,11 @@ ALL = ["C%02d" % i for i in range(1, 21)]
 
 # id -> (technique, level text, level note, design ref)
 CHECKS = {
+ "C13": ("exhaustive enumeration over the whole block-state registry (26,684 states) and over a cross product of chunk shapes (sections x palette classes x biome classes x height maps x block entities x light x status) on the real conversions, plus all SetBlock histories to depth 4/5; judged by a plain-array chunk model, ref/refnbt and ref/refpal",
+         "Every registry state survives ChunkToSave -> ChunkFromSave at all positions and its saved (name, properties) is unique (bijection); every chunk written with WriteTo and read into a fresh / plain-reader / previously-used chunk has identical blocks, biomes, BlockCounts, MOTION_BLOCKING and WORLD_SURFACE height maps and block entities and consumes exactly the bytes written; the save form (direct and through Data/Load with every compression) preserves blocks, biomes, light, status and each of the six height maps under its own name; BlockCount equals an independent recount of non-air states after every step of every SetBlock history.",
+         "Trusted: the check's plain-array model; refnbt/refpal are used to locate fields, not as oracles. Returned byte counts, block entities through the save form, nil vs empty light arrays, fields level.Chunk does not carry are unspecified. save.Chunk raw NBT fields are pre-filled with empty values (an unset RawMessage cannot be encoded).",
+         "DESIGN.md §2 C13"),
+
  "C09": ("exhaustive enumeration of environment behaviours on the real readers/writers: all 2^n fragmentations of inputs <=12 bytes and deviation-bounded short reads (engine.Explore/Deviate, bound 2/3) of longer ones, every failure offset x {EOF, injected} x two legal failure styles (+ one transient failure) for readers, every failure offset for writers; differential oracle against the contiguous run of the same operation",
          "69 read operations (UnPack in 3 modes, NBT decode into 8 targets in both formats, every wire field and combinator, RCON ReadPacket) and 41 write operations (NBT Encode, Pack, WriteTo, RCON WritePacket) over inputs chosen so that every Read/ReadFull/ReadByte/CopyN/Write site of the anchored files is on some path (coverage-confirmed): identical value, byte count and residual stream under every fragmentation; a failure before the operation has consumed/produced everything must give a non-nil error.",
          "Trusted: the contiguous run as the baseline (its conformance is C01/C06/C07's business). Which error is returned, byte counts alongside errors, an error delivered together with the last needed byte, and PluginMessageData ending at EOF are unspecified. (0,nil) reads are not generated.",
